@@ -16,7 +16,8 @@ import (
 // replay with an error or nil - never panic (a panic in the reader goroutine kills the
 // process), never hang. Thorough tier only (native fuzzing is not seedable).
 //
-// Known crash class, skipped by construction so that the fuzzer can search behind it: a
+// Two crash classes found by this target were repaired by fix: commits and are no longer
+// skipped (VERIF_C18_EXCLUDE=readercrash skips them again, for a tree without the fixes): a
 // stream recording whose point line (every third line) holds no point at all (blank,
 // whitespace only or a '#' comment): readPointsFromIO indexes mps[0] of an empty slice;
 // a batch recording with a top-level JSON null: bufferedBatchMessage.UnmarshalJSON
@@ -27,6 +28,7 @@ func FuzzReaders(f *testing.F) {
 		"db\nrp\ncpu value=\"x\",i=3i,b=true 1\ndb\nrp\ncpu value=2 2\n",
 		"{\"name\":\"cpu\",\"tmax\":\"2017-07-14T02:40:10Z\",\"group\":\"host=a\",\"tags\":{\"host\":\"a\"},\"points\":[{\"fields\":{\"value\":1.5},\"tags\":{\"host\":\"a\"},\"time\":\"2017-07-14T02:40:00Z\"}]}\n",
 		"{\"name\":\"cpu\",\"byname\":true,\"points\":[{\"fields\":{\"s\":\"x\",\"b\":false},\"tags\":null,\"time\":\"0001-01-01T00:00:00Z\"}]}\n{\"name\":\"m\"}\n",
+		"db\nrp\n#comment\n", "db\nrp\n\ndb\nrp\n \t\n", // repaired: record without a point
 		"db\nrp\n", "db\n", "\n\n\n", "{", "[]", "null", "{\"points\":[{}]}", "{\"points\":[null]}", "{\"tags\":{\"a\":null},\"points\":[{\"fields\":null}]}", "1 2 3",
 	}
 	for _, s := range seeds {
@@ -34,7 +36,6 @@ func FuzzReaders(f *testing.F) {
 		f.Add([]byte(s), false)
 	}
 	f.Fuzz(func(t *testing.T, data []byte, recTime bool) {
-		// VERIF_C18_NOEXCLUDE=readercrash switches the skipping off (demonstration, validation of a fix)
 		if !keep("readercrash") && emptyPointLine(data) {
 			t.Skip("known: replay/stream/reader-panics-on-record-without-point")
 		}
